@@ -22,7 +22,7 @@ fn gen_cfg(r: &mut fastrand::Rng, absolute_app: Option<&Path>) -> Value {
         m.into_iter().map(|(k, v)| json!([k, v])).collect()
     };
     let nb = r.usize(1..4);
-    let ne = r.usize(0..4);
+    let ne = r.usize(0..6);
     let nce = r.usize(0..3);
     let builder = ["heroku/builder:24", "builder with space", "--builder-looking"][r.usize(..3)];
     json!({
@@ -36,7 +36,8 @@ fn gen_cfg(r: &mut fastrand::Rng, absolute_app: Option<&Path>) -> Value {
             "command": if r.bool() { Value::Null } else { json!((0..r.usize(0..3)).map(|_| s(r)).collect::<Vec<_>>()) },
             "env": kv(r, nce),
             "ports": (0..r.usize(0..3)).map(|_| [80u16, 443, 12345, 1][r.usize(..4)]).collect::<BTreeSet<_>>(),
-            "mounts": (0..r.usize(0..3)).map(|i| json!([format!("/host/{}{i}", ["a", "with space", "--x"][r.usize(..3)]), format!("/in/{}{i}", ["b", "t t"][r.usize(..2)])])).collect::<Vec<_>>(),
+            // (sources may repeat: bind_mount keeps one target per source, the last one)
+            "mounts": (0..r.usize(0..4)).map(|i| json!([format!("/host/{}{}", ["a", "with space", "--x"][r.usize(..3)], i % 2), format!("/in/{}{i}", ["b", "t t"][r.usize(..2)])])).collect::<Vec<_>>(),
         }
     })
 }
@@ -180,7 +181,7 @@ fn run_scenario(sc: &Value, idx: usize, bin: &Path, scratch: &Path, local: bool)
         let o = &s["outcome"];
         let mut push = |k: &'static str, v: &str| plan.entry(k).or_default().push(v.to_string());
         match step {
-            "build" | "rebuild" => { if o["pack"] != "nopack" && o["pack"] != "missing" { push("pack-build", o["pack"].as_str().unwrap()) } }
+            "build" | "rebuild" => { if !["nopack", "missing", "nocopy"].contains(&o["pack"].as_str().unwrap()) { push("pack-build", o["pack"].as_str().unwrap()) } }
             "shell" => push("run-oneshot", o.as_str().unwrap()),
             "sbom" => push("sbom", o.as_str().unwrap()),
             "start_container" => push("run-detached", o.as_str().unwrap()),
@@ -195,6 +196,8 @@ fn run_scenario(sc: &Value, idx: usize, bin: &Path, scratch: &Path, local: bool)
     }
     // pack = "missing": no pack executable anywhere on PATH
     if script[0]["outcome"]["pack"] == "missing" { fs::remove_file(d.join("bin/pack")).unwrap(); }
+    // pack = "nocopy": the fixture holds something the private copy cannot be made of
+    if script[0]["outcome"]["pack"] == "nocopy" { std::os::unix::fs::symlink("points/nowhere", d.join("proj/fixture app/dangling link")).unwrap(); }
     fs::write(d.join("state/plan.json"), json!(plan).to_string()).unwrap();
     fs::write(d.join("scenario.json"), json!({"script": script, "cfg": cfg}).to_string()).unwrap();
     let fixture_root = if local { d.join("proj/fixture app") } else { d.join("proj") };
@@ -222,6 +225,7 @@ fn run_scenario(sc: &Value, idx: usize, bin: &Path, scratch: &Path, local: bool)
     // a configuration whose buildpacks cannot even be packaged never reaches pack: that is C17's
     // business ("every build configuration results in one pack build invocation"), not C16's
     let nopack = script.iter().any(|s| s["outcome"]["pack"] == "nopack");
+    if script[0]["outcome"]["pack"] == "nocopy" && !stderr.contains("Error copying app fixture") { p16.push(format!("the fixture cannot be copied, yet the build went on: {}", stderr.lines().rev().take(3).collect::<Vec<_>>().join(" | "))); }
     if nopack && !stderr.contains("Error packaging") { p16.push("the scripted compile failure of a local buildpack did not stop the build".into()); }
     let packaging_failed = local && stderr.contains("Error packaging") && !nopack;
     if packaging_failed {
@@ -352,7 +356,9 @@ fn run_scenario(sc: &Value, idx: usize, bin: &Path, scratch: &Path, local: bool)
                             want_ports.insert(8080);
                             let got_ports: Result<BTreeSet<u16>, _> = get("--publish").iter().map(|p| p.rsplit(':').next().map(|x| x.trim_end_matches("/tcp")).ok_or(()).and_then(|x| x.parse::<u16>().map_err(|_| ()))).collect();
                             if got_ports != Ok(want_ports.clone()) { p17.push(format!("docker run: published ports {:?}, configured {want_ports:?}", get("--publish"))); }
-                            let mut want_m: Vec<String> = k["mounts"].as_array().unwrap().iter().map(|m| format!("type=bind,source={},target={}", m[0].as_str().unwrap(), m[1].as_str().unwrap())).collect();
+                            let mut by_source: BTreeMap<String, String> = BTreeMap::new();
+                            for m in k["mounts"].as_array().unwrap() { by_source.insert(m[0].as_str().unwrap().to_string(), m[1].as_str().unwrap().to_string()); }
+                            let mut want_m: Vec<String> = by_source.iter().map(|(s, t)| format!("type=bind,source={s},target={t}")).collect();
                             want_m.sort();
                             let mut got_m = get("--mount"); got_m.sort();
                             if got_m != want_m { p17.push(format!("docker run: mounts {got_m:?}, configured {want_m:?}")); }
